@@ -1,0 +1,100 @@
+//go:build verif
+
+// Contracts for the transaction pool table (C37), read by /verif/gocv. Every method takes the pool's lock for
+// its whole body; the proof is per method (sequential), with the representation invariant holding whenever the
+// lock is free - that is what "including under concurrent use" rests on.
+package common
+
+// every entry is stored under the hash of its own transaction: so no two entries of the pool have the same hash
+//@ invariant-of *TXPool :: !isnil(self.txList)
+//@ invariant-of *TXPool :: forall h [32]byte :: has(self.txList, h) ==> self.txList[h] != nil && self.txList[h].Tx != nil && self.txList[h].Tx.hash == h
+// every entry carries well-formed verification records
+//@ spec opaque wfEntry(e *TXEntry) bool = e != nil && e.Tx != nil && forall a int :: 0 <= a && a < len(e.Attrs) ==> e.Attrs[a] != nil
+//@ invariant-of *TXPool :: forall h [32]byte :: has(self.txList, h) ==> wfEntry(self.txList[h])
+
+//@ func (*TXPool).AddTxList
+//@   property C37
+//@   requires txEntry != nil && txEntry.Tx != nil && wfEntry(txEntry)
+//@   modifies mapof(tp.txList)
+//@   -- a transaction whose hash is already present is refused and nothing changes; otherwise exactly its entry is added
+//@   ensures result <==> !old(has(tp.txList, txEntry.Tx.hash))
+//@   ensures result ==> has(tp.txList, txEntry.Tx.hash) && tp.txList[txEntry.Tx.hash] == txEntry && len(tp.txList) == old(len(tp.txList)) + 1
+//@   ensures !result ==> len(tp.txList) == old(len(tp.txList))
+//@   ensures forall h [32]byte :: h != txEntry.Tx.hash ==> (has(tp.txList, h) <==> old(has(tp.txList, h))) && (has(tp.txList, h) ==> tp.txList[h] == old(tp.txList[h]))
+
+//@ func (*TXPool).DelTxList
+//@   property C37
+//@   requires tx != nil
+//@   modifies mapof(tp.txList)
+//@   ensures result <==> old(has(tp.txList, tx.hash))
+//@   ensures !has(tp.txList, tx.hash)
+//@   ensures forall h [32]byte :: h != tx.hash ==> (has(tp.txList, h) <==> old(has(tp.txList, h))) && (has(tp.txList, h) ==> tp.txList[h] == old(tp.txList[h]))
+
+//@ func (*TXPool).GetTransactionCount
+//@   property C37
+//@   ensures result == len(tp.txList)
+
+//@ func (*TXPool).GetTransaction
+//@   property C37
+//@   ensures has(tp.txList, hash) ==> result == tp.txList[hash].Tx
+//@   ensures !has(tp.txList, hash) ==> result == nil
+
+// a stored verification result is current for the given height when no stateful validator saw it below that height
+//@ func (*TXPool).compareTxHeight
+//@   property C37
+//@   requires wfEntry(txEntry)
+//@   -- the two opaque predicates unfolded for this entry and height (instances of their definitions)
+//@   assume entry : wfEntry(txEntry) ==> txEntry != nil && forall a int :: 0 <= a && a < len(txEntry.Attrs) ==> txEntry.Attrs[a] != nil
+//@   assume entry : current(txEntry, height) <==> forall a int :: 0 <= a && a < len(txEntry.Attrs) ==> !(txEntry.Attrs[a].Type == vt.Stateful && txEntry.Attrs[a].Height < height)
+//@   ensures result <==> current(txEntry, height)
+//@   loop 1 invariant forall a int :: 0 <= a && a < it1 ==> !(txEntry.Attrs[a].Type == vt.Stateful && txEntry.Attrs[a].Height < height)
+
+//@ spec opaque current(e *TXEntry, height uint32) bool = forall a int :: 0 <= a && a < len(e.Attrs) ==> !(e.Attrs[a].Type == vt.Stateful && e.Attrs[a].Height < height)
+
+//@ func (*TXPool).Init
+//@   property C37
+//@   requires tp != nil
+//@   modifies tp.txList
+//@   ensures !isnil(tp.txList) && len(tp.txList) == 0
+//@   fresh tp.txList
+
+// exactly the transactions included in the committed block leave the pool
+//@ func (*TXPool).CleanTransactionList
+//@   property C37
+//@   requires forall a int :: 0 <= a && a < len(txs) ==> txs[a] != nil
+//@   modifies mapof(tp.txList)
+//@   ensures forall h [32]byte :: has(tp.txList, h) <==> (old(has(tp.txList, h)) && forall a int :: 0 <= a && a < len(txs) ==> txs[a].hash != h)
+//@   ensures forall h [32]byte :: has(tp.txList, h) ==> tp.txList[h] == old(tp.txList[h])
+//@   loop 1 invariant forall h [32]byte :: has(tp.txList, h) <==> (old(has(tp.txList, h)) && forall a int :: 0 <= a && a < it1 ==> txs[a].hash != h)
+//@   loop 1 invariant forall h [32]byte :: has(tp.txList, h) ==> tp.txList[h] == old(tp.txList[h])
+
+// consensus is handed at most the configured number of transactions, every one of them a pool entry whose
+// verification is current for the requested height; stale entries are reported for re-verification
+//@ func (*TXPool).GetTxPool
+//@   property C37
+//@   mode abstract
+//@   nopanic on
+//@   requires tp != nil && config.DefConfig != nil && config.DefConfig.Consensus != nil
+//@   modifies nothing
+//@   loop 1 invariant len(orderByFee) == it1 && forall j int :: 0 <= j && j < it1 ==> wfEntry(orderByFee[j])
+//@   loop 2 invariant 0 <= num && num == len(txList) && num <= it2 && (it2 > 0 ==> num < count || it2 == 0) && len(orderByFee) == len(tp.txList)
+//@   loop 2 invariant forall j int :: 0 <= j && j < len(txList) ==> current(txList[j], height)
+//@   loop 2 invariant forall j int :: 0 <= j && j < len(orderByFee) ==> wfEntry(orderByFee[j])
+//@   assume before "oldTxList = append(oldTxList, txEntry.Tx)" : wfEntry(txEntry) ==> txEntry != nil   -- definition instance
+//@   ensures[c37-at-most-configured] byCount && int(config.DefConfig.Consensus.MaxTxInBlock) > 0 ==> len(r0) <= int(config.DefConfig.Consensus.MaxTxInBlock)
+//@   ensures[c37-at-most-pool] len(r0) <= len(tp.txList)
+//@   ensures[c37-current] forall j int :: 0 <= j && j < len(r0) ==> current(r0[j], height)
+
+// checking a block from consensus: the pool only shrinks, and only by entries of the listed transactions whose
+// verification is stale for the given height
+//@ func (*TXPool).GetUnverifiedTxs
+//@   property C37
+//@   mode abstract
+//@   nopanic on
+//@   requires tp != nil && forall a int :: 0 <= a && a < len(txs) ==> txs[a] != nil
+//@   modifies mapof(tp.txList)
+//@   assume before "if !tp.compareTxHeight(txEntry, height)" : wfEntry(txEntry) ==> txEntry != nil && forall a int :: 0 <= a && a < len(txEntry.Attrs) ==> txEntry.Attrs[a] != nil   -- definition instance
+//@   loop 1 invariant res != nil && forall h [32]byte :: has(tp.txList, h) ==> old(has(tp.txList, h)) && tp.txList[h] == old(tp.txList[h])
+//@   loop 1 invariant forall h [32]byte :: (forall a int :: 0 <= a && a < it1 ==> txs[a].hash != h) ==> (has(tp.txList, h) <==> old(has(tp.txList, h)))
+//@   ensures[c37-only-shrinks] forall h [32]byte :: has(tp.txList, h) ==> old(has(tp.txList, h)) && tp.txList[h] == old(tp.txList[h])
+//@   ensures[c37-only-listed] forall h [32]byte :: (forall a int :: 0 <= a && a < len(txs) ==> txs[a].hash != h) ==> (has(tp.txList, h) <==> old(has(tp.txList, h)))
